@@ -10,7 +10,7 @@ FLOORS = {
     'quick': {'distinct_nontrivial': 2500, 'python-texts-judged': 2500, 'token-streams-judged': 2500, 'feature:multi-level-dedent': 400,
               'feature:bracketed-newline': 1500, 'feature:tabs': 1200, 'feature:blank-or-comment-line': 2500, 'feature:DedentError': 600,
               'feature:>=3-levels': 1000, 'stream-sequences-judged': 1500, 'feature:after-failed-stream': 300, 'feature:after-abandoned-stream': 300,
-              'class:no-final-newline-tail': 200, 'class:indented-first-line': 200, 'contract:balanced-at-end': 5000,
+              'class:no-final-newline-tail': 200, 'class:indented-first-line': 200, 'class:code-line-without-final-newline': 150, 'feature:generators-created-before-consumption': 600, 'contract:balanced-at-end': 5000,
               'feature:empty-valued-last-token-before-closing-dedents': 30},
     'thorough-unused': {'distinct_nontrivial': 50000, 'python-texts-judged': 100000},
 }
